@@ -127,8 +127,8 @@ class DomainPredicates:
                 if head.ast_type in (ASTType.Disjunction, ASTType.Aggregate):
                     for cond in head.elements:
                         assert cond.ast_type == ASTType.ConditionalLiteral
-                        lit = list(literal_predicate(cond.literal, SIGNS))[0]
-                        self._not_static.add(lit.pred)
+                        for lit in literal_predicate(cond.literal, SIGNS):  # none for #false, comparisons, -a(X)
+                            self._not_static.add(lit.pred)
                 elif head.ast_type == ASTType.HeadAggregate:
                     for elem in filter(lambda x: x.ast_type == ASTType.HeadAggregateElement, head.elements):
                         cond = elem.condition
